@@ -24,7 +24,7 @@ ASSUMPTIONS = [
 ]
 BUDGET = {"quick": 300, "thorough": 3500}
 DEEP = ["Maize", "MaizeGDD", "Cotton", "CottonGDD", "Sunflower", "SunflowerGDD", "Soybean", "SoybeanGDD", "AlfalfaGDD", "Sorghum", "SorghumGDD"]
-PROFILE = gen.profile(crops=DEEP * 2 + list(gen.CROPS), seasons=(1, 3), max_days=900, p_dz=0.5, p_soil_args=0.9, p_custom_soil=0.3,
+PROFILE = gen.profile(crops=DEEP * 2 + list(gen.CROPS), seasons=(1, 3), max_days=900, p_dz=0.5, p_soil_args=0.9, p_custom_soil=0.4, pen=True,
                       p_gw=0.35, p_fm=0.5, p_ffm=0.3, p_co2=0.3, storms=(0, 4), rain=(("dry", 3), ("mid", 2), ("wet", 2)), switches=True,
                       p_override=0.5, dry_spells=(0, 2), temp_events=(0, 2))
 
